@@ -85,7 +85,7 @@ def run_case(spec, j):
     j.skip('C01', 'degenerate-model')   # C03 judges this
     return
   Lfro = np.linalg.norm(L)
-  L2 = np.linalg.norm(L, 2)
+  L2 = np.linalg.norm(L, 2) if L.size else 0.0
   d = f.d
   api.set_judge(j)
   metric = est.get_metric()
